@@ -387,6 +387,8 @@ scratch_copy_string (char *s)
 	    default:
 	      *to++ = '\\';
 	      *to++ = *s;
+	      if (l)
+		l--;		/* two characters stored */
 	    }
 	  s++;
 	}
